@@ -213,7 +213,7 @@ def _(u):
 DEC = "rl4co/utils/decoding.py"
 
 
-@unit("ops.unbatchify_and_gather", file=OPS, func="unbatchify_and_gather", props=("C12",))
+@unit("ops.unbatchify_and_gather", file=OPS, func="unbatchify_and_gather", props=("C12", "C15"))
 def _(u):
     B, K, T = u.dims("B K T")
     x = u.tensor("x", (K * B, T), "f")
@@ -228,7 +228,7 @@ def _(u):
     u.canary("ug.interleaved", out.at(b, t) == x.at(b * K + idx.at(b), t))
 
 
-@unit("decoding.select_best", file=DEC, func="DecodingStrategy._select_best", props=("C12",))
+@unit("decoding.select_best", file=DEC, func="DecodingStrategy._select_best", props=("C12", "C15"))
 def _(u):
     B, K, T = u.dims("B K T")
     logp = u.tensor("logprobs", (K * B, T), "f")
